@@ -30,6 +30,26 @@ CHECKS = {
    text="The term is shown to be written by ++ only, in the election branch only; a master is assigned only together with a term increment and only from the CONTROLS/self/target-filtered relation set; CONTROLS relations mirror connections; every southbound Set is sent over the master relation's connection under the master guards and carries the term as election id; no new change is sent while SYNCHRONIZING or in a stale applied term.",
    note="Trusted: as C02. Not covered: simultaneous beliefs of several nodes, the device's arbitration.",
    ref="DESIGN.md §3 C10"),
+ "C04": dict(
+   technique="loop-gate evaluation over enumerated paths (push loop), path-condition entailment, request dataflow (sent == recorded), outcome tables for offline branches, primitive-naming rule on the stores, request-builder case analysis",
+   text="The re-push gate, the entry into SYNCHRONIZING, the apply guards against a stale term, the equality of what is sent and what is recorded as applied, the write-free offline branches, the distinctness of the committed/applied Atomix primitives and the totality of the SetRequest builder are decided from the code. Convergence of a real device is not.",
+   note="Trusted: as C02. Not covered: device state, histories with faults. The primitive-sharing defect found by this check was repaired (fix commit 8e55a12).",
+   ref="DESIGN.md §3 C04"),
+ "C05": dict(
+   technique="must-pass-through and receiver identity of the plugin call, provenance dataflow of the validated document over enumerated paths, verdict outcome table, chunk-cursor rule",
+   text="VALIDATED is shown to require a successful Validate on the plugin of the proposal's own type/version; the validated bytes are shown to be BuildTree of a slice filled from the full candidate map (all of Configuration.Values plus exactly the change source that commit later merges); the registry is shown to honour the verdict and to stream the document with an exact chunk cursor.",
+   note="Trusted: as C02; assumes stored proposals have their Details oneof set (shown for both creating literals in C01.7c). Not covered: contents of the JSON document (BuildTree), leaf-for-leaf equality.",
+   ref="DESIGN.md §3 C05"),
+ "C06": dict(
+   technique="path-condition entailment and outcome tables for the rollback admission rules, loop-body capture rule, ownership of Configuration.Index, capture-domain/write-domain agreement",
+   text="The three rollback refusals (not the latest change, missing index, rollback of a rollback) at proposal and transaction level, the capture of prior values for every path the change names, the index written at commit, and the agreement between the captured and the mutated collection are decided. The last one fails today (cascaded deletes) and is listed as known finding F8.",
+   note="Trusted: as C02. Not covered: value-exact restoration, device side.",
+   ref="DESIGN.md §3 C06"),
+ "C11": dict(
+   technique="finite-domain evaluation of the apply-error classification over all gRPC codes, error-domain agreement between classifier and producers (resolved through interface implementations), composition of four hand-written class tables",
+   text="For each of the 17 gRPC codes the outcome class of the apply step (retry / wait / record refusal with the right class and cursor order) is decided; every error classifier is shown to be applied in the domain its argument's producers are in; the device-code to caller-status composition is shown to be the identity on refusals.",
+   note="Trusted: as C02 plus the source of onos-lib-go errors in the module cache. The classifier-domain defect found (status.Code on a TypedError) was repaired (fix commit e6b405d). Not covered: device-side state, retry timing.",
+   ref="DESIGN.md §3 C11"),
 }
 
 def main():
